@@ -27,7 +27,7 @@ ASSUMPTIONS = [
     'hierarchies CPython rejects and root modules named like summary pages are outside the alphabet',
 ]
 FLOOR = {'quick': 300, 'thorough': 1500}
-SPACE = {'quick': 'histories <= 3 over 18 events x 2 schedules', 'thorough': 'histories <= 4 over 18 events x 2 schedules'}
+SPACE = {'quick': 'histories <= 3 over 20 events x 2 schedules', 'thorough': 'histories <= 4 over 20 events x 2 schedules'}
 
 EVENTS: Dict[str, List[Tuple[str, str]]] = {
     'defC':   [('a', 'class X:\n    def m(self): pass\n')],
@@ -47,6 +47,8 @@ EVENTS: Dict[str, List[Tuple[str, str]]] = {
     'subIn':  [('a', 'class V(X):\n    def m(self): pass\n')],
     'cycle':  [('a', 'from .b import S\nclass Z(S): pass\n')],
     'cycle2': [('a', 'from .b import B2\nclass A2: pass\nclass A3(A2): pass\n'), ('b', 'from .a import A2\nclass B2(A2): pass\n')],
+    'rootname': [('a', 'class p:\n    "a class whose short name is the name of the root package"\n    def m(self): pass\n')],
+    'modname': [('b', 'class a:\n    "a class whose short name is the name of a sibling module"\nclass b:\n    class b:\n        pass\n')],
     'zope':   [('b', 'from zope.interface import Interface, implementer\nclass IX(Interface):\n    def im(): pass\n@implementer(IX)\nclass W: pass\n')],
 }
 NAMES = list(EVENTS)
